@@ -147,7 +147,9 @@ func PEP440(quick bool) []string {
 		"1.0.0.0", "1.0.0.0.1", "01.0", "1.00", "1.0a01", "1.0alpha", "1.0-a1", "1.0_a1", "1.0.a1", "1.0rc", "1.0c", "1.0pre", "1.0preview", "1.0.post-1", "1.0post.1",
 		"2!0", "1.0+1.2", "1.0+2.1", "1.0+10", "1.0+9", "1.0+a", "1.0+A", "1.0+b", "1.0+1a", "1.0+a1",
 		// numeric local segments with leading zeros compare by value
-		"1.0+01", "1.0+007", "1.0+8", "1.0+2024.01", "1.0+2024.2", "1.0a1+00", "1.0a1+0", "1.0+0", "1.0+00.1", "1.0+0.01")
+		"1.0+01", "1.0+007", "1.0+8", "1.0+2024.01", "1.0+2024.2", "1.0a1+00", "1.0a1+0", "1.0+0", "1.0+00.1", "1.0+0.01",
+		// local labels mixing the three separators
+		"1.0+ubuntu-1_2", "1.0+ubuntu.1.2", "1.0+a_b-c", "1.0+a-b_c", "1.0+a.b-c_d", "1.0+1-2_3", "1.0+a-b", "1.0+a_b", "1.0+a.b", "1.0.post1+x_y-z", "1!1.0a1+u-1_2")
 	return dedup(out)
 }
 
